@@ -380,19 +380,20 @@ Definition op_binop (o : opcode) : binop :=
 Definition numberArith (o : opcode) (a b : float) : VM value :=
   match arith_op (op_binop o) a b with Some r => vret (VNum r) | None => vunsup 201 end.
 
-(* func objectArith(L, opcode, lhs, rhs) *)
+(* func objectArith(L, opcode, lhs, rhs): numeric strings are converted first and two numbers are
+   computed directly; only otherwise a metamethod is looked up, on the original operands *)
 Definition objectArith (o : opcode) (lhs rhs : value) : VM value :=
-  vdo op <- metaOp2 lhs rhs (arith_event (op_binop o));
-  if is_function op then
-    vdo _ <- reg_push op; vdo _ <- reg_push lhs; vdo _ <- reg_push rhs; vdo _ <- Call 2 1; reg_pop
-  else
-    if is_fault lhs || is_fault rhs then vunsup 111 else
-    vdo l <- (match lhs with VStr s => vdo p <- parseNumber s; vret (match p with PN f => VNum f | PNo => lhs end) | _ => vret lhs end);
-    vdo r <- (match rhs with VStr s => vdo p <- parseNumber s; vret (match p with PN f => VNum f | PNo => rhs end) | _ => vret rhs end);
-    match l, r with
-    | VNum x, VNum y => numberArith o x y
-    | _, _ => fault_ 2
-    end.
+  if is_fault lhs || is_fault rhs then vunsup 111 else
+  vdo l <- (match lhs with VStr s => vdo p <- parseNumber s; vret (match p with PN f => VNum f | PNo => lhs end) | _ => vret lhs end);
+  vdo r <- (match rhs with VStr s => vdo p <- parseNumber s; vret (match p with PN f => VNum f | PNo => rhs end) | _ => vret rhs end);
+  match l, r with
+  | VNum x, VNum y => numberArith o x y
+  | _, _ =>
+      vdo op <- metaOp2 lhs rhs (arith_event (op_binop o));
+      if is_function op then
+        vdo _ <- reg_push op; vdo _ <- reg_push lhs; vdo _ <- reg_push rhs; vdo _ <- Call 2 1; reg_pop
+      else fault_ 2
+  end.
 
 Definition as_text (v : value) : VM bytes :=
   match v with VStr s => vret s | VNum f => of_num_text f | _ => vret [] end.
